@@ -29,6 +29,7 @@ type Clause struct {
 type LoopSpec struct {
 	Invariants []Clause
 	Decreases  *Clause
+	Iteration  []Clause // proved at the end of every iteration that completes normally (body locals in scope)
 }
 
 type CallsiteSpec struct {
@@ -315,6 +316,8 @@ func parseSpecFile(path string, pkgPath string) (*SpecFile, error) {
 				ls.Invariants = append(ls.Invariants, cl)
 			case "decreases":
 				ls.Decreases = &cl
+			case "iteration":
+				ls.Iteration = append(ls.Iteration, cl)
 			default:
 				return nil, fmt.Errorf("%s:%d: loop clause kind %q", path, rc.line, f[1])
 			}
